@@ -22,7 +22,7 @@ def run(tier, seed, replay=None):
     from splipy import state, SplineObject
     rng = random.Random(seed)
     tol = C.fr(state.knot_tolerance)
-    npair = 240 if tier == 'quick' else 3000
+    npair = 300 if tier == 'quick' else 3000
     cases = []
     dist = {'pardim': {}, 'op': {}, 'rational': {}, 'periodic': {}, 'dims': {}, 'errors': {}}
     if replay:
